@@ -1,6 +1,7 @@
 #include <cstdio>
 
 #include <value.h>
+#include <pubkey.h>
 
 typedef std::vector<unsigned char> valtype;
 
@@ -11,6 +12,8 @@ int main(int argc, const char** argv)
         printf("e.g. %s OP_DUP OP_HASH160 '[62e907b15cbf27d5425399ebf6f0fb50ebb88f18]' OP_EQUALVERIFY OP_CHECKSIG\n", argv[0]);
         return 1;
     }
+    // inline expressions such as verify_sig() with an ECDSA key use CPubKey, which needs the verification context
+    ECCVerifyHandle evh;
     try {
         std::vector<Value> result = Value::parse_args(argc, argv, 1);
         fprintf(stdout, "%s\n", Value::serialize(result).c_str());
